@@ -16,7 +16,7 @@ STORE_COMPONENTS = {
              'generated algorithm engines (worlds.aegen) as the user code', 'clock (sim.boot.SimDateTime)',
              'crash enumeration only: numbering wrappers (no behaviour change) for os/open/shutil/tempfile/subprocess inside dawgie.db.util, dbm.dumb._io/_os, '
              'comms.Worker._send/do; a crash image = copy of the store directory taken by the wrapper immediately BEFORE the step (kernel-visible state, i.e. what a kill '
-             'leaves); a new incarnation = the real DBI.open() on the image; real fork + os._exit(137) victims only as calibration of that equivalence (1 enumeration run in 4)',
+             'leaves); a new incarnation = the real DBI.open() on the image; real fork + os._exit(137) victims only as calibration of that equivalence (batches real-kill-calibration*)',
              'cross-device configuration: os.rename inside a private clone of shutil (same code objects) raises EXDEV so that the real shutil.move takes its real copy+unlink path; '
              'ENOSPC: a write-like numbered step raises OSError(ENOSPC) instead of executing',
              'db.post (PostgreSQL) backend: NOT exercised'],
@@ -75,7 +75,9 @@ def with_crash(mix, n):
 # with a 130 s limit
 # the enumerated phase is ONE update by one client, so that the image budget is never exhausted: every I/O step of
 # the generated update is a checked crash point (concurrent crash scenarios are the business of the 'faults' batches)
-ENUM = dict(phases=1, enum=1, enum_clients=1, enum_ops=1, ops_per_client=2, content='pool', between=1, max_images=72, real_kill=(1, 6))
+ENUM = dict(phases=1, enum=1, enum_clients=1, enum_ops=1, ops_per_client=2, content='pool', between=1, max_images=72)
+# a forked process costs 0.5-5 s of copy-on-write faults in this VM: the real kills are a small batch of their own
+REAL_KILL = dict(phases=1, enum=0, calibrate=2, content='pool', between=1)
 
 PROPS = {
     'C07': dict(
@@ -85,7 +87,7 @@ PROPS = {
                     'of the enumerated phases and opened by a new incarnation (real DBI.open, everything read back); the image-equals-real-kill equivalence is itself tested '
                     'with forked victims ended by os._exit(137); followed by seeded search (kills, resets, crashes at step boundaries, ENOSPC, purge); '
                     'exhaustive over the crash positions of each generated update, not over updates'),
-        level_note=LN + '; crash images are copies of the directory taken before the step (kernel-visible state = what SIGKILL leaves), validated against real kills in 1 crash-enumeration run of 4',
+        level_note=LN + '; crash images are copies of the directory taken before the step (kernel-visible state = what SIGKILL leaves), validated against real fork + os._exit(137) kills in the two real-kill-calibration batches',
         probes=['novelty_new', 'novelty_repeat', 'crash_point_worker_side', 'crash_point_pipeline_side', 'crash_between_move_and_record',
                 'crash_between_values_of_one_update', 'crash_image_checked', 'real_kill_equals_image', 'purge_deleted_orphans', 'references_checked_during_update',
                 'crash_inside_cross_device_copy'],
@@ -93,6 +95,8 @@ PROPS = {
             store('fault-free', 160, 1600, prop='C07', **C07_MIX),
             store('crash-enum', 100, 1000, prop='C07', **ENUM, **{k: v for k, v in C07_MIX.items() if k != 'content'}),
             store('crash-enum-cross-device', 40, 400, prop='C07', exdev=True, **ENUM, **{k: v for k, v in C07_MIX.items() if k != 'content'}),
+            store('real-kill-calibration', 12, 120, prop='C07', **REAL_KILL, **{k: v for k, v in C07_MIX.items() if k != 'content'}),
+            store('real-kill-calibration-cross-device', 8, 80, prop='C07', exdev=True, **REAL_KILL, **{k: v for k, v in C07_MIX.items() if k != 'content'}),
             store('faults', 140, 1400, prop='C07', crash_mid=(1, 6), enospc=(1, 150), **FAULTS,
                   **{k: v for k, v in with_crash(C07_MIX, 3).items()}),
             store('faults-cross-device', 40, 400, prop='C07', exdev=True, crash_mid=(1, 6), enospc=(1, 60), **FAULTS,
